@@ -52,6 +52,10 @@ func exec(op string) vlib.Res {
 		return execWildAnswer(f)
 	case "supds check":
 		return execSupDS(f)
+	case "nsec3 nodata":
+		return execN3(f)
+	case "proofname check":
+		return execProofName(f)
 	case "filter zone":
 		return execFilterZone(f)
 	case "rootds check":
@@ -105,7 +109,9 @@ func gen(r *vlib.R, n int, tier string, emit func(string)) {
 	}
 	rest := n - n*9/20
 	for rest > 0 {
-		switch k := r.Intn(29); {
+		switch k := r.Intn(31); {
+		case k == 29 || k == 30:
+			emit(genN3(r))
 		case k == 23 || k == 24:
 			emit(genAdHitChase(r))
 		case k == 25 || k == 26:
@@ -117,7 +123,11 @@ func gen(r *vlib.R, n int, tier string, emit func(string)) {
 			case 0:
 				emit(genSupDS(r))
 			case 1:
-				emit(genRootDS(r))
+				if r.Bool() {
+					emit(genRootDS(r))
+				} else {
+					emit(fmt.Sprintf("proofname check %s %s", vlib.Pick(r, []string{"sub.zone.test", "a.b.c.example.com", "test", ".", "www.%666f6f2e626172.test"}), tf(r)))
+				}
 			default:
 				emit(genFilterZone(r))
 			}
